@@ -116,7 +116,7 @@ CFG = dict(
                "has only the Reals axioms. Nothing is partial. The model is tied to the code by ~40k differential cases per quick run.",
     level_note="Trusted: Coq kernel (+ stdlib Reals axioms under the rank / z-score theorems only); the hand-written model of "
                "cmp.rs / norm.rs / isnone.rs sort_cmp; the order kernels are proved for every carrier satisfying OrdLaws (instances Z, "
-               "option R; binary64 only modulo the stdlib FloatAxioms, outside the counted obligations), float arithmetic (rank value, "
+               "option R; and Coq's primitive binary64 float — the binary64 theorems C03_*_binary64 are counted obligations and depend on the standard library's own FloatAxioms.eqb_spec / ltb_spec / leb_spec, the specification of the primitive float comparisons), float arithmetic (rank value, "
                "normalisations) stays outside the theorems (float runs are compared bit-exactly for min/max/arg/rank and within 1e-9 "
                "for the normalisations). The model "
                "follows the repaired code (two fix: commits, see KNOWN_FINDINGS.d/C03.txt).",
